@@ -28,9 +28,16 @@ func (g *vxGraph) Out(i int) []int {
 
 func vxMakeGraph(n, maxDeg int) *vxGraph {
 	g := &vxGraph{adj: make([][]int, n), done: make([]bool, n)}
+	// CSR layout (see graph/zz_verif_c18_graph.go): adjacency lists are windows of one backing array
+	buf := make([]int, n*maxDeg+4)
+	for i := range buf {
+		buf[i] = -7
+	}
+	off := 0
 	for i := 0; i < n; i++ {
 		d := vx.Choose(vxNm("deg", i), 0, maxDeg)
-		g.adj[i] = make([]int, d)
+		g.adj[i] = buf[off : off+d]
+		off += d
 		for k := 0; k < d; k++ {
 			t := vx.Int(vxNm("e", i*8+k))
 			vx.Assume(vx.And(t >= 0, t < n))
@@ -281,6 +288,38 @@ func VxC19_DominatorsSparse5() {
 		}
 	}
 	vxC19Body(g, n, 0)
+}
+
+// VxC19_DominatorsIrreducible: the same around two irreducible templates that need three passes of
+// the fix-point iteration (the smallest such flow graph, 5 nodes / 7 edges, and the 6-node example
+// of Cooper, Harvey and Kennedy), each with up to two extra edges anywhere and any root: graphs of
+// this kind are beyond the exhaustive families of the quick tier.
+//
+//vx:solver z3-new
+//vx:maxdec 200000
+//vx:bound template A: 1->2,1->4,2->3,3->0,4->0,0->3,0->4; template B: 5->4,5->3,4->0,3->1,3->2,0->1,1->0,1->2,2->1; plus 0..2 extra edges (quick: 0..1) with any source and symbolic target; every root
+//vx:outside other graphs on 5 or more nodes (VxC19_DominatorsSparse5 in the thorough tier)
+func VxC19_DominatorsIrreducible() {
+	var adj [][]int
+	if vx.Choose("template", 0, 1) == 0 {
+		adj = [][]int{{3, 4}, {2, 4}, {3}, {0}, {0}}
+	} else {
+		adj = [][]int{{1}, {0, 2}, {1}, {1, 2}, {0}, {4, 3}}
+	}
+	n := len(adj)
+	g := &vxGraph{adj: make([][]int, n), done: make([]bool, n)}
+	for i := range adj {
+		g.adj[i] = append([]int(nil), adj[i]...)
+	}
+	extra := vx.Choose("extra", 0, 1+vx.Tier())
+	for k := 0; k < extra; k++ {
+		src := vx.Choose(vxNm("src", k), 0, n-1)
+		t := vx.Int(vxNm("x", k))
+		vx.Assume(vx.And(t >= 0, t < n))
+		g.adj[src] = append(g.adj[src], t)
+	}
+	root := vx.Choose("root", 0, n-1)
+	vxC19Body(g, n, root)
 }
 
 func vxC19Body(g *vxGraph, n, root int) {
